@@ -13,6 +13,8 @@ from ..expr import Translator, equal, forward_substitute
 from ..model import AnalysisError, Program, norm_key, parent_of
 from ..report import Checker
 from .procmodel import ROW_BODIES, extract_body
+from ..resolve import Resolver, canon
+from typing import Tuple
 
 EXPLANATION = (
     "Counter-role, pairing, ordering and locality rules over the three row-building processing bodies and the "
@@ -33,11 +35,11 @@ EXPLANATION = (
     "amplitudes (depends on data); floating-point equality of joint and separate runs.")
 
 RULES = {
-    "C03.R1": "order[org_idx] = cur_idx; counters in lock-step with row writes; single gather feeding the constructor",
+    "C03.R1": "row-index algebra: the k-th record of a group writes rows k and count+k, the group ratio pairs them, rows land at K+k (reorder table o -> K+k, single gather) or directly at the original positions; counters in lock-step with the writes",
     "C03.R2": "count per time step == records appended; input order kept; min / maximal-count selection",
-    "C03.R3": "grouping key == filter key (record.ns.dt_in_seconds)",
+    "C03.R3": "grouping key == filter key (record.ns.dt_in_seconds); a group is smoothed against rfftfreq(n, its own dt)",
     "C03.R4": "Nyquist guard on the largest retained time step before the loops; raises when max(fcs) > 1/(2dt)",
-    "C03.R5": "no loop-carried state between records (counters excepted)",
+    "C03.R5": "no loop-carried state between records (counters excepted); processing does not modify the caller's recordings (no history dependence)",
     "C03.R6": "result shape (len(records) after filtering, len(fcs)); fcs configured and passed on; validation rejects NaN/negative",
 }
 
@@ -56,10 +58,123 @@ def run(ck: Checker, prog: Program, tier: str):
     ck.guard(_azimuthal_forwarding, ck, prog, P + "R2")
     ck.guard(_r4_guard, ck, prog)
     ck.guard(_validation, ck, prog)
+    ck.guard(_history, ck, prog)
+    for q in ROW_BODIES[:2]:
+        ck.guard(_group_axis, ck, prog, q)
 
 
 def _is_aug(st, name, amount: Optional[str] = "1") -> bool:
     return isinstance(st, ast.AugAssign) and isinstance(st.op, ast.Add) and unparse(st.target) == name and (amount is None or unparse(st.value) == amount)
+
+
+# symbols of the row-index algebra: position of the record within its group, rows written before the group,
+# size of the group, original position of the record
+K_, k_, CNT_, O_ = sp.Symbol("K", integer=True), sp.Symbol("k", integer=True), sp.Symbol("count", integer=True), sp.Symbol("o", integer=True)
+
+
+def _doc_order(root: ast.AST) -> Dict[int, int]:
+    order: Dict[int, int] = {}
+
+    def go(n):
+        order[id(n)] = len(order)
+        for c in ast.iter_child_nodes(n):
+            go(c)
+    go(root)
+    return order
+
+
+class _Counters:
+    """Running counters of a row-building body as affine forms in (K, k, count)."""
+
+    def __init__(self, b, q):
+        self.b, self.q = b, q
+        f = b.func
+        self.order = _doc_order(f.node)
+        self.c: Dict[str, dict] = {}
+        aug = [n for n in own_nodes(f.node) if isinstance(n, ast.AugAssign) and isinstance(n.target, ast.Name)]
+        for name in sorted({n.target.id for n in aug}):
+            incs = [n for n in aug if n.target.id == name]
+            inits = [n for n in own_nodes(f.node) if isinstance(n, ast.Assign) and any(isinstance(t, ast.Name) and t.id == name for t in n.targets)]
+            if not any(self._within(n, b.group_loop) for n in incs):
+                continue
+            self.c[name] = {"incs": incs, "inits": inits}
+        self.names = set(self.c)
+
+    def _within(self, n, anc) -> bool:
+        while n is not None:
+            if n is anc:
+                return True
+            n = parent_of(n)
+        return False
+
+    def _before(self, a, b) -> bool:
+        return self.order[id(a)] < self.order[id(b)]
+
+    def value(self, name: str, use: ast.AST) -> sp.Expr:
+        b = self.b
+        c = self.c[name]
+        T = Translator(env={b.count_var: CNT_} if b.count_var else {})
+        if len(c["inits"]) != 1:
+            raise AnalysisError(f"{self.q}: counter `{name}` is initialised {len(c['inits'])} times")
+        init = c["inits"][0]
+        par = parent_of(init)
+        if par is b.func.node and self._before(init, b.group_loop):
+            level = "fn"
+        elif par is b.group_loop and self._before(init, b.record_loop):
+            level = "grp"
+        else:
+            raise AnalysisError(f"{self.q}: counter `{name}` is initialised at an unexpected place (`{norm_key(init, 60)}`)")
+        v = T.tr(init.value)
+        in_rec = self._within(use, b.record_loop)
+        if not in_rec and not self._within(use, b.group_loop):
+            raise AnalysisError(f"{self.q}: counter `{name}` used outside the group loop")
+        for inc in c["incs"]:
+            if not isinstance(inc.op, ast.Add):
+                raise AnalysisError(f"{self.q}: counter `{name}` updated by `{norm_key(inc, 60)}`")
+            amt = T.tr(inc.value)
+            if self._within(inc, b.record_loop):
+                if amt != 1:
+                    raise AnalysisError(f"{self.q}: counter `{name}` advances by {amt} per record")
+                if in_rec:
+                    v = v + (K_ if level == "fn" else 0) + k_ + (1 if self._before(inc, use) else 0)
+                else:
+                    after = self._before(b.record_loop, use) and not self._within(use, b.record_loop)
+                    v = v + (K_ if level == "fn" else 0) + (CNT_ if after else 0)
+            elif parent_of(inc) is b.group_loop:
+                if amt != CNT_ or level != "fn":
+                    raise AnalysisError(f"{self.q}: counter `{name}` advances by {amt} per group")
+                v = v + K_ + (CNT_ if self._before(inc, use) else 0)
+            else:
+                raise AnalysisError(f"{self.q}: counter `{name}` updated at an unexpected place")
+        return sp.expand(v)
+
+    def env_at(self, use: ast.AST) -> Dict[str, sp.Expr]:
+        b = self.b
+        env: Dict[str, sp.Expr] = {}
+        if b.count_var:
+            env[b.count_var] = CNT_
+        for name in self.c:
+            try:
+                env[name] = self.value(name, use)
+            except AnalysisError:
+                pass
+        if self._within(use, b.record_loop):
+            env[b.org_idx] = O_
+            if b.k_var:
+                env[b.k_var] = k_
+        return env
+
+
+def _smoothing(b) -> Tuple[Optional[ast.Assign], Optional[ast.Call]]:
+    """The group-level statement `S = <smoothing operator>(frq, RAW, fcs, bandwidth)`."""
+    for st in b.group_loop.body:
+        if isinstance(st, ast.Assign) and isinstance(st.value, ast.Call) and len(st.value.args) == 4 and self_after(b, st):
+            return st, st.value
+    return None, None
+
+
+def self_after(b, st) -> bool:
+    return st.lineno > b.record_loop.lineno or True
 
 
 def _body(ck: Checker, prog: Program, q: str):
@@ -67,159 +182,221 @@ def _body(ck: Checker, prog: Program, q: str):
     f = b.func
     cfg = cfg_of(f)
     rotd = q.endswith("rotdpp_hvsr_processing")
+    C = _Counters(b, q)
     # ------------------------------------------------------------------ R3 filter
-    filt_ok = b.filter_if is not None and unparse(b.filter_if.test) == f"{b.record}.ns.dt_in_seconds != {b.dt_var}" \
-        and b.record_loop.body[0] is b.filter_if
-    if filt_ok:
-        ck.ok(P + "R3", q, norm_key(b.filter_if), detail="records of other time steps are skipped first thing")
+    want_key = f"{b.record}.ns.dt_in_seconds"
+    if b.filter_key is not None and unparse(b.filter_key) == want_key:
+        ck.ok(P + "R3", q, f"records with {want_key} != {b.dt_var} are skipped", detail=f"form {b.form}")
+    elif b.filter_key is not None:
+        ck.violation(P + "R3", q, "time-step filter",
+                     f"the group's records are selected by `{unparse(b.filter_key)}`; the groups were built from `{want_key}`", loc=f.loc(b.record_loop))
     else:
         ck.violation(P + "R3", q, "time-step filter",
-                     f"the per-record loop does not start with `if {b.record}.ns.dt_in_seconds != {b.dt_var}: continue` "
+                     f"the per-record loop does not select the records whose `{want_key}` equals the group's time step "
                      f"(found `{unparse(b.filter_if.test) if b.filter_if is not None else None}`)", loc=f.loc(b.record_loop))
-    # ------------------------------------------------------------------ R1 events per record iteration
-    ev_names = ["order[org]=cur", "cur+=1", "hor row", "ver row", "hor+=1", "ver+=1", "bad order store", "result row", "hvsr+=1"]
+    extra_exits = [n for st in b.stmts for n in ast.walk(st) if isinstance(n, (ast.Continue, ast.Break, ast.Return))
+                   and not any(isinstance(a, (ast.For, ast.While)) and a is not b.record_loop and C._within(n, a) and C._within(a, b.record_loop) for a in ast.walk(b.record_loop))]
+    for n in extra_exits:
+        ck.violation(P + "R1", q, f"{type(n).__name__.lower()} in the per-record body",
+                     f"a processed record can leave the per-record body early (`{type(n).__name__.lower()}` at line {n.lineno}): its rows would stay unwritten", loc=f.loc(n))
+    # ------------------------------------------------------------------ arrays: RAW (smoothed per group), OUT (result), ORDER (reorder table)
+    out_name = None
+    if b.ctor is not None and len(b.ctor.args) >= 2 and isinstance(b.ctor.args[1], ast.Name):
+        out_name = b.ctor.args[1].id
+    if out_name is None:
+        raise AnalysisError(f"{q}: the amplitude argument of the result constructor is not a local array")
+    gathers = [st for st in own_nodes(f.node) if isinstance(st, ast.Assign) and isinstance(st.value, ast.Subscript)
+               and isinstance(st.value.value, ast.Name) and st.value.value.id == out_name and isinstance(st.value.slice, ast.Name)
+               and not C._within(st, b.group_loop)]
+    order_name = gathers[0].value.slice.id if gathers else None
+    sm_stmt = sm_call = None
+    raw_name = None
+    if not rotd:
+        for st in b.group_loop.body:
+            if isinstance(st, ast.Assign) and isinstance(st.value, ast.Call) and len(st.value.args) == 4 and C._before(b.record_loop, st) \
+                    and isinstance(st.value.args[1], ast.Name) and len(st.targets) == 1 and isinstance(st.targets[0], ast.Name):
+                sm_stmt, sm_call, raw_name = st, st.value, st.value.args[1].id
+        if sm_stmt is None:
+            raise AnalysisError(f"{q}: group-level smoothing call `S = operator(frq, raw, fcs, bandwidth)` not found")
+    # ------------------------------------------------------------------ R1 events per processed record
+    stores: Dict[str, List[ast.Assign]] = {"raw": [], "order": [], "out": []}
+    for n in ast.walk(b.record_loop):
+        if isinstance(n, ast.Assign) and len(n.targets) == 1 and isinstance(n.targets[0], ast.Subscript) and isinstance(n.targets[0].value, ast.Name):
+            base = n.targets[0].value.id
+            if base == raw_name:
+                stores["raw"].append(n)
+            elif base == order_name:
+                stores["order"].append(n)
+            elif base == out_name:
+                stores["out"].append(n)
+    rec_incs = [inc for nm in sorted(C.c) for inc in C.c[nm]["incs"] if C._within(inc, b.record_loop)]
+    events: List[ast.AST] = stores["raw"] + stores["order"] + stores["out"] + rec_incs
+    ev_ids = {id(e): i for i, e in enumerate(events)}
 
     def classify(n):
-        st = cfg.ast_of(n)
         if cfg.kind(n) != "stmt":
             return None
-        if isinstance(st, ast.Assign) and isinstance(st.targets[0], ast.Subscript):
-            tv, ts = unparse(st.targets[0].value), unparse(st.targets[0].slice)
-            if tv == "hvsr_indices_to_order":
-                return 0 if (ts == b.org_idx and unparse(st.value) == "cur_idx") else 6
-            if tv == "raw_spectra" and ts == "hor_idx":
-                return 2
-            if tv == "raw_spectra" and ts == "ver_idx":
-                return 3
-            if tv == "hvsr_spectra" and rotd and ts == "hvsr_idx":
-                return 7
-        if _is_aug(st, "cur_idx"):
-            return 1
-        if _is_aug(st, "hor_idx"):
-            return 4
-        if _is_aug(st, "ver_idx"):
-            return 5
-        if _is_aug(st, "hvsr_idx") and rotd:
-            return 8
-        if isinstance(st, (ast.Assign, ast.AugAssign)):
-            tg = st.targets if isinstance(st, ast.Assign) else [st.target]
-            for t in tg:
-                if isinstance(t, ast.Name) and t.id in COUNTERS:
-                    return 6
-        return None
-    res = events_per_iteration(cfg, b.record_loop, classify, len(ev_names))
-    skip = tuple(0 for _ in ev_names)
-    if rotd:
-        full = (1, 1, 0, 0, 0, 0, 0, 1, 1)
+        return ev_ids.get(id(cfg.ast_of(n)))
+    res = events_per_iteration(cfg, b.record_loop, classify, max(1, len(events)))
+    skip = tuple(0 for _ in events) or (0,)
+    full = tuple(1 for _ in events) or (0,)
+    allowed = {skip, full} if b.form == "A" else {full}
+    names = [norm_key(e, 50) for e in events]
+    if events and res <= allowed and full in res:
+        ck.ok(P + "R1", q, "per-record bookkeeping", detail="skipped record: nothing written; processed record: each once - " + "; ".join(names))
     else:
-        full = (1, 1, 1, 1, 1, 1, 0, 0, 0)
-    if res == {skip, full}:
-        ck.ok(P + "R1", q, "per-record bookkeeping", detail="skipped record: nothing written; processed record: " +
-              ", ".join(n for n, v in zip(ev_names, full) if v))
-    else:
-        bad = sorted(res - {skip, full})
-        desc = "; ".join("{" + ", ".join(f"{n} x{v}" for n, v in zip(ev_names, t) if v) + "}" for t in bad[:3]) or str(sorted(res))
+        bad = sorted(res - allowed)
+        desc = "; ".join("{" + ", ".join(f"{n} x{v}" for n, v in zip(names, t) if v) + "}" for t in bad[:3]) or str(sorted(res))
         ck.violation(P + "R1", q, "per-record bookkeeping",
-                     f"an iteration of the per-record loop can end with {desc}; expected either nothing (skipped time step) or exactly "
-                     f"{{{', '.join(n for n, v in zip(ev_names, full) if v)}}}: rows would be permuted, dropped or duplicated",
-                     loc=f.loc(b.record_loop))
-    # order store precedes the increment
-    stores = [st for st in ast.walk(b.record_loop) if isinstance(st, ast.Assign) and isinstance(st.targets[0], ast.Subscript)
-              and unparse(st.targets[0].value) == "hvsr_indices_to_order"]
-    incs = [st for st in ast.walk(b.record_loop) if _is_aug(st, "cur_idx")]
-    if len(stores) == 1 and len(incs) == 1 and stores[0].lineno < incs[0].lineno and parent_of(stores[0]) is parent_of(incs[0]):
-        ck.ok(P + "R1", q, norm_key(stores[0]), detail="original index -> row counter (pre-increment)")
-    elif len(stores) == 1 and len(incs) == 1:
-        ck.violation(P + "R1", q, norm_key(stores[0]), "the reorder entry is not written before the row counter advances", loc=f.loc(stores[0]))
-    # initialisations
-    def init_of(name):
-        return [st for st in own_nodes(f.node) if isinstance(st, ast.Assign) and unparse(st.targets[0]) == name]
-    for name in ("cur_idx", "hvsr_idx"):
-        i = init_of(name)
-        if len(i) == 1 and parent_of(i[0]) is f.node and unparse(i[0].value) == "0" and i[0].lineno < b.group_loop.lineno:
-            ck.ok(P + "R1", q, f"{name} = 0 before the loops", nontrivial=False)
-        else:
-            ck.violation(P + "R1", q, f"{name} initialisation", f"`{name}` is not initialised to 0 exactly once before the group loop", loc=f.loc())
+                     f"an iteration of the per-record loop can end with {desc}; expected either nothing (skipped time step) or each of "
+                     f"{{{'; '.join(names)}}} exactly once: rows would be permuted, dropped or duplicated", loc=f.loc(b.record_loop))
+
+    def idx_value(node: ast.AST, at: ast.AST) -> sp.Expr:
+        T = Translator(env=C.env_at(at))
+        return sp.expand(T.tr(node))
+    # ------------------------------------------------------------------ R1 where the rows go
+    placement = None          # "block" | "scatter" | "direct"
     if not rotd:
-        hi, vi = init_of("hor_idx"), init_of("ver_idx")
-        good = len(hi) == 1 and len(vi) == 1 and parent_of(hi[0]) is b.group_loop and parent_of(vi[0]) is b.group_loop \
-            and unparse(hi[0].value) == "0" and unparse(vi[0].value) == (b.count_var or "?") and hi[0].lineno < b.record_loop.lineno
-        if good:
-            ck.ok(P + "R1", q, "hor_idx = 0, ver_idx = count per group")
+        got = sorted((str(idx_value(st.targets[0].slice, st)) for st in stores["raw"]))
+        if len(stores["raw"]) == 2 and got == sorted([str(sp.expand(k_)), str(sp.expand(CNT_ + k_))]):
+            ck.ok(P + "R1", q, f"{raw_name}[k] and {raw_name}[count + k] hold the rows of the group's k-th record",
+                  detail="; ".join(norm_key(st, 60) for st in stores["raw"]))
         else:
-            ck.violation(P + "R1", q, "per-group counters", "hor_idx/ver_idx are not reset to 0/count at the start of every group", loc=f.loc(b.group_loop))
-        alloc = [st for st in b.group_loop.body if isinstance(st, ast.Assign) and unparse(st.targets[0]) == "raw_spectra"]
-        T = Translator()
+            ck.violation(P + "R1", q, "per-group rows",
+                         f"the group's k-th record writes rows {got} of `{raw_name}`; expected rows k and count + k (numerator and denominator "
+                         f"of the same record must be paired by the group-level ratio)", loc=f.loc(b.record_loop))
+        alloc = [st for st in b.group_loop.body if isinstance(st, ast.Assign) and len(st.targets) == 1 and isinstance(st.targets[0], ast.Name)
+                 and st.targets[0].id == raw_name]
+        T = Translator(env={b.count_var: CNT_} if b.count_var else {})
         ok_alloc = len(alloc) == 1 and isinstance(alloc[0].value, ast.Call) and alloc[0].value.args and isinstance(alloc[0].value.args[0], ast.Tuple) \
-            and equal(T.tr(alloc[0].value.args[0].elts[0]), 2 * T.sym(b.count_var or "count"))
+            and equal(T.tr(alloc[0].value.args[0].elts[0]), 2 * CNT_) and C._before(alloc[0], b.record_loop)
         if ok_alloc:
-            ck.ok(P + "R1", q, norm_key(alloc[0]), detail="2*count rows per group")
+            ck.ok(P + "R1", q, norm_key(alloc[0]), detail="2*count rows per group, allocated per group")
         else:
-            ck.violation(P + "R1", q, "raw spectra allocation", "the per-group array does not have 2*count rows", loc=f.loc(b.group_loop))
-        # group block write and offset
-        blk = [st for st in b.group_loop.body if isinstance(st, ast.Assign) and isinstance(st.targets[0], ast.Subscript)
-               and unparse(st.targets[0].value) == "hvsr_spectra"]
-        adv = [st for st in b.group_loop.body if _is_aug(st, "hvsr_idx", None)]
-        c = b.count_var or "count"
-        good = len(blk) == 1 and unparse(blk[0].targets[0].slice) == f"hvsr_idx:hvsr_idx + {c}" \
-            and unparse(blk[0].value) == f"smooth_spectra[:{c}] / smooth_spectra[{c}:]" \
-            and len(adv) == 1 and unparse(adv[0].value) == c and blk[0].lineno < adv[0].lineno and blk[0].lineno > b.record_loop.end_lineno
+            ck.violation(P + "R1", q, "raw spectra allocation", "the per-group array does not have 2*count rows allocated for every group", loc=f.loc(b.group_loop))
+        # the ratio and where it is stored
+        S = sm_stmt.targets[0].id
+        blk = [st for st in b.group_loop.body if isinstance(st, ast.Assign) and len(st.targets) == 1 and isinstance(st.targets[0], ast.Subscript)
+               and isinstance(st.targets[0].value, ast.Name) and st.targets[0].value.id == out_name]
+        if len(blk) != 1 or not C._before(sm_stmt, blk[0]):
+            raise AnalysisError(f"{q}: expected one group-level store into `{out_name}` after the smoothing call, found {len(blk)}")
+        TT = Translator(env={**C.env_at(blk[0])})
+        forward_substitute([st for st in b.group_loop.body if isinstance(st, ast.Assign) and C._before(sm_stmt, st) and C._before(st, blk[0])
+                            and isinstance(st.targets[0], ast.Name)], TT)
+        ratio = TT.tr(blk[0].value)
+        Ssym = TT.sym(S)
+        gi, sl, NONE = sp.Function("getitem"), sp.Function("slice"), sp.Symbol("None")
+        want_ratio = gi(Ssym, sl(NONE, CNT_, NONE)) / gi(Ssym, sl(CNT_, NONE, NONE))
+        if equal(ratio, want_ratio):
+            ck.ok(P + "R1", q, f"group ratio = {S}[:count] / {S}[count:]", detail="row g of the ratio pairs rows g and count+g")
+        else:
+            ck.violation(P + "R1", q, "group ratio", f"the group's curves are {ratio}; expected {want_ratio} (row g over row count+g)", loc=f.loc(blk[0]))
+        tslice = blk[0].targets[0].slice
+        if isinstance(tslice, ast.Slice) and tslice.step is None and tslice.lower is not None and tslice.upper is not None:
+            a, bb = idx_value(tslice.lower, blk[0]), idx_value(tslice.upper, blk[0])
+            if a == sp.expand(K_) and bb == sp.expand(K_ + CNT_):
+                placement = "block"
+                ck.ok(P + "R1", q, norm_key(blk[0], 110), detail="group rows [K, K+count) with K the number of rows written by earlier groups")
+            else:
+                ck.violation(P + "R1", q, "group block", f"the group's rows are written to [{a}, {bb}); expected [K, K+count) with K the rows of earlier groups",
+                             loc=f.loc(blk[0]))
+                placement = "block?"
+        elif isinstance(tslice, ast.Name) and b.form == "B" and tslice.id == b.org_list:
+            placement = "scatter"
+            ck.ok(P + "R1", q, norm_key(blk[0], 110), detail="row g of the group goes to the original position of the group's g-th record")
+        else:
+            raise AnalysisError(f"{q}: placement `{norm_key(blk[0], 80)}` of the group's rows not recognised")
+    else:
+        if len(stores["out"]) == 1 and idx_value(stores["out"][0].targets[0].slice, stores["out"][0]) == sp.expand(K_ + k_):
+            placement = "block"
+            ck.ok(P + "R1", q, norm_key(stores["out"][0], 90), detail="row K + k")
+        else:
+            got = [str(idx_value(st.targets[0].slice, st)) for st in stores["out"]]
+            ck.violation(P + "R1", q, "result row", f"the k-th record of a group writes result row(s) {got}; expected K + k", loc=f.loc(b.record_loop))
+            placement = "block?"
+    # ------------------------------------------------------------------ R1 back to the input order
+    if placement in ("block", "block?"):
+        ost = stores["order"]
+        if len(ost) == 1 and idx_value(ost[0].targets[0].slice, ost[0]) == O_ and idx_value(ost[0].value, ost[0]) == sp.expand(K_ + k_):
+            ck.ok(P + "R1", q, norm_key(ost[0]), detail="original index -> row K + k")
+        else:
+            got = [(str(idx_value(st.targets[0].slice, st)), str(idx_value(st.value, st))) for st in ost]
+            ck.violation(P + "R1", q, "reorder table", f"the reorder table is written as {got} (index, value); expected (original index, K + k)", loc=f.loc(b.record_loop))
+        good = len(gathers) == 1 and parent_of(gathers[0]) is f.node and C._before(b.group_loop, gathers[0]) \
+            and len(gathers[0].targets) == 1 and isinstance(gathers[0].targets[0], ast.Name)
         if good:
-            ck.ok(P + "R1", q, norm_key(blk[0], 110), detail="group rows [offset, offset+count); offset += count")
+            rd = reaching(f)
+            tgt = gathers[0].targets[0].id
+            good = tgt == out_name and rd.def_stmts(out_name, b.ctor) == [gathers[0]]
+        if good:
+            ck.ok(P + "R1", q, norm_key(gathers[0]), detail="rows gathered back to input order exactly once; the constructor receives the gathered array")
         else:
-            ck.violation(P + "R1", q, "group block", f"the group's rows are not written to [hvsr_idx, hvsr_idx+{c}) followed by hvsr_idx += {c}", loc=f.loc(b.group_loop))
-    # gather exactly once, after the loops, feeding the constructor
-    g = b.gather
-    good = len(g) == 1 and parent_of(g[0]) is f.node and g[0].lineno > b.group_loop.end_lineno and unparse(g[0].value) == "hvsr_spectra[hvsr_indices_to_order]" \
-        and unparse(g[0].targets[0]) == "hvsr_spectra"
-    good = good and b.ctor is not None and len(b.ctor.args) >= 2 and unparse(b.ctor.args[1]) == "hvsr_spectra"
-    if good:
+            ck.violation(P + "R1", q, "gather", f"the rows are not gathered by the reorder table exactly once before the result is built ({len(gathers)} gather statement(s))",
+                         loc=f.loc())
+        tbl = [st for st in own_nodes(f.node) if isinstance(st, ast.Assign) and any(isinstance(t, ast.Name) and t.id == order_name for t in st.targets)]
+        R0 = Resolver(prog, f)
+        ok_tbl = len(tbl) == 1 and isinstance(tbl[0].value, ast.Call) and tbl[0].value.args and kwarg(tbl[0].value, "dtype") is not None \
+            and unparse(kwarg(tbl[0].value, "dtype")) in ("int", "np.int64", "np.intp") \
+            and canon(R0.value(tbl[0].value.args[0], tbl[0])) == canon(R0.value(ast.parse("len(records)", mode="eval").body, tbl[0]))
+        if ok_tbl:
+            ck.ok(P + "R1", q, norm_key(tbl[0]), nontrivial=False)
+        elif order_name is not None:
+            ck.violation(P + "R1", q, "reorder table", "the reorder table is not an integer array with one entry per record", loc=f.loc())
+    elif placement == "scatter":
         rd = reaching(f)
-        defs = rd.def_stmts("hvsr_spectra", b.ctor)
-        good = defs == [g[0]]
-    if good:
-        ck.ok(P + "R1", q, norm_key(g[0]), detail="rows gathered back to input order exactly once; the constructor receives the gathered array")
-    else:
-        ck.violation(P + "R1", q, "gather", f"the rows are not gathered by the reorder table exactly once before the result is built ({len(g)} gather statement(s))",
-                     loc=f.loc())
-    tbl = [st for st in own_nodes(f.node) if isinstance(st, ast.Assign) and unparse(st.targets[0]) == "hvsr_indices_to_order"]
-    if len(tbl) == 1 and "len(records)" in unparse(tbl[0].value) and "dtype=int" in unparse(tbl[0].value):
-        ck.ok(P + "R1", q, norm_key(tbl[0]), nontrivial=False)
-    else:
-        ck.violation(P + "R1", q, "reorder table", "the reorder table is not an integer array with one entry per record", loc=f.loc())
+        defs = rd.def_stmts(out_name, b.ctor)
+        if gathers or len(defs) != 1:
+            ck.violation(P + "R1", q, "gather", "rows already stored at their original positions are permuted again before the result is built", loc=f.loc())
+        else:
+            ck.ok(P + "R1", q, "rows stored at their original positions; no further permutation", nontrivial=False)
     # ------------------------------------------------------------------ R5
-    carried = loop_carried(f, b.record_loop, ignore=COUNTERS)
+    carried = loop_carried(f, b.record_loop, ignore=C.names | {raw_name, out_name, order_name})
     if not carried:
         ck.ok(P + "R5", q, norm_key(b.record_loop), detail="no value is carried from one record to the next")
     for (nm, use, d) in carried:
         ck.violation(P + "R5", q, f"{nm} <- {norm_key(d, 70)}",
                      f"`{nm}` read at line {use.lineno} may hold a value computed for a previous record: a curve would depend on the other recordings",
                      loc=f.loc(use))
-    # ------------------------------------------------------------------ R4 / R6 preamble order
-    pre = [st for st in f.node.body if st.lineno < b.group_loop.lineno]
-    texts = [norm_key(st, 200) for st in pre]
-    prep = [i for i, st in enumerate(pre) if isinstance(st, ast.Assign) and calls_in(st.value, "prepare_records_with_inconsistent_dt")]
-    alloc = [i for i, st in enumerate(pre) if isinstance(st, ast.Assign) and unparse(st.targets[0]) == "hvsr_spectra"]
-    nyq = [i for i, st in enumerate(pre) if isinstance(st, ast.Expr) and calls_in(st, "check_nyquist_frequency")]
-    fcs = [i for i, st in enumerate(pre) if isinstance(st, ast.Assign) and unparse(st.targets[0]) == "fcs"]
-    good = len(prep) == 1 and unparse(pre[prep[0]].targets[0]) in ("(records, dt_with_count)", "records, dt_with_count") \
-        and [unparse(a) for a in calls_in(pre[prep[0]].value, "prepare_records_with_inconsistent_dt")[0].args] == ["records", "settings"]
-    if good and len(alloc) == 1 and alloc[0] > prep[0] and unparse(pre[alloc[0]].value) == "np.empty((len(records), len(fcs)))":
-        ck.ok(P + "R6", q, norm_key(pre[alloc[0]]), detail="rows = records retained by the policy, columns = centre frequencies")
+    # ------------------------------------------------------------------ R4 / R6 preamble
+    R = Resolver(prog, f)
+    prep = [st for st in f.node.body if isinstance(st, ast.Assign) and calls_in(st.value, "prepare_records_with_inconsistent_dt") and C._before(st, b.group_loop)]
+    good = len(prep) == 1 and isinstance(prep[0].targets[0], ast.Tuple) and [unparse(e) for e in prep[0].targets[0].elts] == ["records", "dt_with_count"] \
+        and isinstance(prep[0].value, ast.Call) and [unparse(a) for a in prep[0].value.args] == ["records", "settings"]
+    if not good:
+        ck.violation(P + "R6", q, "time-step policy", "records, dt_with_count = prepare_records_with_inconsistent_dt(records, settings) not found before the loops", loc=f.loc())
+        return
+    alloc = [st for st in f.node.body if isinstance(st, ast.Assign) and any(isinstance(t, ast.Name) and t.id == out_name for t in st.targets) and C._before(st, b.group_loop)]
+    fcs_want = canon(R.value(ast.parse("np.array(settings.smoothing['center_frequencies_in_hz'])", mode="eval").body, b.ctor))
+    ok_alloc = False
+    if len(alloc) == 1 and C._before(prep[0], alloc[0]) and isinstance(alloc[0].value, ast.Call) and call_name(alloc[0].value) in ("empty", "zeros") \
+            and alloc[0].value.args and isinstance(alloc[0].value.args[0], ast.Tuple) and len(alloc[0].value.args[0].elts) == 2:
+        r0, r1 = alloc[0].value.args[0].elts
+        v0 = canon(R.value(r0, alloc[0]))
+        v1 = canon(R.value(r1, alloc[0]))
+        want0 = canon(R.value(ast.parse("len(records)", mode="eval").body, alloc[0]))
+        ok_alloc = v0 == want0 and v1 == sp.Function("len")(fcs_want)
+    if ok_alloc:
+        ck.ok(P + "R6", q, norm_key(alloc[0]), detail="rows = records retained by the policy, columns = centre frequencies")
     else:
         ck.violation(P + "R6", q, "result allocation", "the result array is not allocated as (len(records) after the time-step policy, len(fcs))", loc=f.loc())
-    if len(fcs) == 1 and unparse(pre[fcs[0]].value) == "np.array(settings.smoothing['center_frequencies_in_hz'])" and b.ctor is not None \
-            and unparse(b.ctor.args[0]) == "fcs" and reaching(f).def_stmts("fcs", b.ctor) == [pre[fcs[0]]]:
-        ck.ok(P + "R6", q, norm_key(pre[fcs[0]]), detail="the result's frequency vector is the configured centre frequencies")
+    if b.ctor is not None and b.ctor.args and canon(R.value(b.ctor.args[0], b.ctor)) == fcs_want:
+        ck.ok(P + "R6", q, "the result's frequency vector is the configured centre frequencies", detail=str(fcs_want))
     else:
         ck.violation(P + "R6", q, "centre frequencies", "the result's frequency vector is not the configured centre frequencies", loc=f.loc())
-    if len(nyq) == 1 and good and nyq[0] > prep[0]:
-        c = calls_in(pre[nyq[0]], "check_nyquist_frequency")[0]
-        a = [unparse(x) for x in c.args]
-        if a == ["max(dt_with_count.keys())", "fcs"]:
+    nyq = [st for st in f.node.body if isinstance(st, ast.Expr) and calls_in(st, "check_nyquist_frequency") and C._before(st, b.group_loop)]
+    if len(nyq) == 1 and C._before(prep[0], nyq[0]):
+        c = calls_in(nyq[0], "check_nyquist_frequency")[0]
+        g = prog.func("processing.check_nyquist_frequency")
+        from ..astutil import bind_call
+        bound = bind_call(c, g.params)
+        a0 = canon(R.value(bound[g.params[0]], nyq[0])) if g.params[0] in bound else None
+        a1 = canon(R.value(bound[g.params[1]], nyq[0])) if g.params[1] in bound else None
+        D = canon(R.value(ast.parse("dt_with_count", mode="eval").body, nyq[0]))
+        wants = [sp.Function("max")(sp.Function("keys")(D)), sp.Function("max")(D)]
+        if a0 in wants and a1 == fcs_want:
             ck.ok(P + "R4", q, norm_key(c), detail="guard on the largest retained time step, before any spectrum is computed")
         else:
-            ck.violation(P + "R4", q, norm_key(c), f"the Nyquist guard is called with {a}; expected (largest retained time step, fcs)", loc=f.loc(c))
+            ck.violation(P + "R4", q, norm_key(c), f"the Nyquist guard is called with ({a0}, {a1}); expected (largest retained time step, fcs)", loc=f.loc(c))
     else:
         ck.violation(P + "R4", q, "Nyquist guard", "check_nyquist_frequency is not called once after the time-step policy and before the loops", loc=f.loc())
 
@@ -263,67 +440,184 @@ def _r2(ck: Checker, prog: Program):
         ck.ok(P + "R2", fq, "frequency_domain_resampling keeps every record", nontrivial=False)
     else:
         ck.violation(P + "R2", fq, "frequency_domain_resampling", "the resampling policy does not return all records with their counts", loc=f.loc())
-    for pol, sel_name in (("keeping_smallest_time_step", "smallest_dt"), ("keeping_majority_time_step", "majority_dt")):
+    R = Resolver(prog, f, inline=False, keep={"dt_with_count"})
+    for pol in ("keeping_smallest_time_step", "keeping_majority_time_step"):
         br = branches[pol]
         body = br.body
-        lp = [st for st in body if isinstance(st, ast.For) and unparse(st.iter) == "records"]
-        if len(lp) != 1:
-            ck.violation(P + "R2", fq, pol, "selection loop over records not found", loc=f.loc(br))
-            continue
-        lp = lp[0]
-        rec = unparse(lp.target)
-        sel = [st for st in lp.body if isinstance(st, ast.If)]
-        okk = False
-        detail = ""
-        if len(sel) == 1 and isinstance(sel[0].test, ast.Compare) and isinstance(sel[0].test.ops[0], ast.Eq) \
-                and unparse(sel[0].test.left) == f"{rec}.ns.dt_in_seconds" and not sel[0].orelse:
-            chosen = unparse(sel[0].test.comparators[0])
-            blk = sel[0].body
-            app = [x for x in blk if isinstance(x, ast.Expr) and isinstance(x.value, ast.Call) and call_name(x.value) == "append"
-                   and unparse(x.value.func.value) == "abbr_records" and unparse(x.value.args[0]) == rec]
-            inc = [x for x in blk if _is_aug(x, "count")]
-            brk = [x for x in blk if isinstance(x, ast.If)]
-            early_ok = all(isinstance(x.test, ast.Compare) and isinstance(x.test.ops[0], ast.Eq) and unparse(x.test.left) == "count"
-                           and all(isinstance(y, ast.Break) for y in x.body) for x in brk)
-            okk = len(app) == 1 and len(inc) == 1 and early_ok and chosen == sel_name
-            detail = f"selected `{chosen}`; append x{len(app)}; count += 1 x{len(inc)}"
-            # early break only once every record of that time step has been taken
-            for x in brk:
-                total = unparse(x.test.comparators[0])
-                if total not in (f"dt_with_count[{chosen}]", "majority_count"):
-                    okk = False
-                    detail += f"; early exit at count == {total}"
-        init = [st for st in body if isinstance(st, ast.Assign) and unparse(st.targets[0]) in ("abbr_records", "count")]
-        okk = okk and {unparse(st.targets[0]): unparse(st.value) for st in init} == {"abbr_records": "[]", "count": "0"}
         rets = [x for x in body if isinstance(x, ast.Return)]
-        ret_ok = len(rets) == 1 and unparse(rets[0].value) in (f"(abbr_records, {{{sel_name}: count}})", f"(abbr_records, {{{sel_name}: majority_count}})")
-        if okk and ret_ok:
-            ck.ok(P + "R2", fq, f"{pol}: {detail}", detail="records of the selected step appended in input order together with the count")
+        if len(rets) != 1 or not isinstance(rets[0].value, ast.Tuple) or len(rets[0].value.elts) != 2 \
+                or not isinstance(rets[0].value.elts[0], ast.Name) or not isinstance(rets[0].value.elts[1], ast.Dict) or len(rets[0].value.elts[1].keys) != 1:
+            raise AnalysisError(f"{fq}: {pol}: `return <list>, {{<dt>: <count>}}` not found")
+        ret = rets[0]
+        lst = ret.value.elts[0].id
+        dkey, dval = ret.value.elts[1].keys[0], ret.value.elts[1].values[0]
+        # ---- which records are retained
+        sel = _selection(f, body, lst, ret)
+        if sel is None:
+            raise AnalysisError(f"{fq}: {pol}: construction of the retained list `{lst}` not recognised")
+        rec, key, chosen, counter, problems = sel
+        detail = f"retains records with `{unparse(key)} == {unparse(chosen)}` in input order"
+        okk = not problems and unparse(key) == f"{rec}.ns.dt_in_seconds" and unparse(chosen) == unparse(dkey)
+        if unparse(key) != f"{rec}.ns.dt_in_seconds":
+            problems.append(f"records are selected by `{unparse(key)}`, the groups are built from `.ns.dt_in_seconds`")
+        if unparse(chosen) != unparse(dkey):
+            problems.append(f"the returned time step `{unparse(dkey)}` is not the one the records were selected by (`{unparse(chosen)}`)")
+        # ---- the count that is returned
+        nval = unparse(dval)
+        count_ok = nval == f"len({lst})" or nval == f"dt_with_count[{unparse(chosen)}]" or (counter is not None and nval == counter)
+        scan = _majority_scan(body) if pol == "keeping_majority_time_step" else None
+        if scan is not None and nval == scan[1] and unparse(chosen) == scan[0]:
+            count_ok = True
+        if not count_ok:
+            problems.append(f"the count returned for the retained time step is `{nval}`")
+        if okk and count_ok and not problems:
+            ck.ok(P + "R2", fq, f"{pol}: {detail}; count `{nval}`", detail="records of the selected step kept in input order together with their number")
         else:
-            ck.violation(P + "R2", fq, pol, f"{pol}: retained records/count bookkeeping broken ({detail}; return ok: {ret_ok})", loc=f.loc(br))
-        # the selected time step
+            ck.violation(P + "R2", fq, pol, f"{pol}: retained records/count bookkeeping broken ({'; '.join(problems)})", loc=f.loc(br))
+        # ---- the selected time step
         if pol == "keeping_smallest_time_step":
-            d = [st for st in body if isinstance(st, ast.Assign) and unparse(st.targets[0]) == "smallest_dt"]
-            if len(d) == 1 and unparse(d[0].value) in ("min(dt_with_count.keys())", "min(dt_with_count)"):
-                ck.ok(P + "R2", fq, norm_key(d[0]), detail="smallest time step")
+            D = sp.Symbol("dt_with_count", real=True)
+            try:
+                v = canon(R.value(chosen, ret))
+            except AnalysisError:
+                v = None
+            if v in (sp.Function("min")(sp.Function("keys")(D)), sp.Function("min")(D)):
+                ck.ok(P + "R2", fq, f"{unparse(chosen)} = {v}", detail="smallest time step")
             else:
-                ck.violation(P + "R2", fq, "smallest time step", f"the retained time step is `{unparse(d[0].value) if d else None}`, not the smallest one", loc=f.loc(br))
+                ck.violation(P + "R2", fq, "smallest time step", f"the retained time step is `{v}`, not the smallest one", loc=f.loc(br))
         else:
-            scan = [st for st in body if isinstance(st, ast.For) and unparse(st.iter) == "dt_with_count.items()"]
-            good = False
-            if len(scan) == 1 and isinstance(scan[0].target, ast.Tuple):
-                pdt, pc = [unparse(e) for e in scan[0].target.elts]
-                ifs = [x for x in scan[0].body if isinstance(x, ast.If)]
-                if len(ifs) == 1 and isinstance(ifs[0].test, ast.Compare) and isinstance(ifs[0].test.ops[0], (ast.Gt, ast.GtE)) \
-                        and unparse(ifs[0].test.left) == pc and unparse(ifs[0].test.comparators[0]) == "majority_count":
-                    asg = {unparse(x.targets[0]): unparse(x.value) for x in ifs[0].body if isinstance(x, ast.Assign)}
-                    good = asg == {"majority_dt": pdt, "majority_count": pc}
-                i0 = [st for st in body if isinstance(st, ast.Assign) and unparse(st.targets[0]) == "majority_count" and unparse(st.value) == "0"]
-                good = good and len(i0) == 1 and i0[0].lineno < scan[0].lineno
+            good = scan is not None and scan[0] == unparse(chosen)
+            if not good:
+                try:
+                    v = canon(R.value(chosen, ret))
+                except AnalysisError:
+                    v = None
+                txt = str(v)
+                good = txt in ("max(dt_with_count, attr_get(dt_with_count))", "max(dt_with_count, dt_with_count.get)")
             if good:
-                ck.ok(P + "R2", fq, "majority: running maximum of the counts", detail="a most frequent time step")
+                ck.ok(P + "R2", fq, "majority: a time step with the largest count", detail="a most frequent time step")
             else:
                 ck.violation(P + "R2", fq, "majority time step", "the retained time step is not one with the largest count", loc=f.loc(br))
+
+
+def _selection(f, body, lst, ret):
+    """How the retained list is built: (record var, key expr, chosen expr, counter name or None, problems)."""
+    # (a) comprehension
+    for st in body:
+        if isinstance(st, ast.Assign) and len(st.targets) == 1 and isinstance(st.targets[0], ast.Name) and st.targets[0].id == lst \
+                and isinstance(st.value, ast.ListComp):
+            c = st.value
+            if len(c.generators) != 1 or unparse(c.generators[0].iter) != "records" or not isinstance(c.generators[0].target, ast.Name):
+                return None
+            rec = c.generators[0].target.id
+            problems = []
+            if unparse(c.elt) != rec:
+                problems.append(f"the list holds `{unparse(c.elt)}`, not the records")
+            if len(c.generators[0].ifs) != 1 or not isinstance(c.generators[0].ifs[0], ast.Compare) or not isinstance(c.generators[0].ifs[0].ops[0], ast.Eq):
+                return None
+            t = c.generators[0].ifs[0]
+            key, chosen = t.left, t.comparators[0]
+            if rec not in unparse(key):
+                key, chosen = chosen, key
+            return rec, key, chosen, None, problems
+    # (b) append loop
+    lp = [st for st in body if isinstance(st, ast.For) and unparse(st.iter) == "records" and isinstance(st.target, ast.Name)]
+    init = [st for st in body if isinstance(st, ast.Assign) and len(st.targets) == 1 and isinstance(st.targets[0], ast.Name) and st.targets[0].id == lst]
+    if len(lp) != 1 or len(init) != 1 or unparse(init[0].value) != "[]":
+        return None
+    lp = lp[0]
+    rec = lp.target.id
+    sel = [st for st in lp.body if isinstance(st, ast.If)]
+    if len(sel) != 1 or len(lp.body) != 1 or not isinstance(sel[0].test, ast.Compare) or not isinstance(sel[0].test.ops[0], ast.Eq) or sel[0].orelse:
+        return None
+    key, chosen = sel[0].test.left, sel[0].test.comparators[0]
+    if rec not in unparse(key):
+        key, chosen = chosen, key
+    blk = sel[0].body
+    problems = []
+    app = [x for x in blk if isinstance(x, ast.Expr) and isinstance(x.value, ast.Call) and call_name(x.value) == "append"
+           and unparse(x.value.func.value) == lst]
+    if len(app) != 1 or unparse(app[0].value.args[0]) != rec:
+        problems.append(f"a selected record is appended {len(app)} time(s)")
+    incs = [x for x in blk if isinstance(x, ast.AugAssign) and isinstance(x.target, ast.Name) and isinstance(x.op, ast.Add) and unparse(x.value) == "1"]
+    counter = incs[0].target.id if len(incs) == 1 else None
+    if counter is not None:
+        ci = [st for st in body if isinstance(st, ast.Assign) and len(st.targets) == 1 and unparse(st.targets[0]) == counter]
+        if len(ci) != 1 or unparse(ci[0].value) != "0":
+            problems.append(f"the counter `{counter}` does not start at 0")
+    for x in blk:
+        if isinstance(x, ast.If):
+            fine = isinstance(x.test, ast.Compare) and isinstance(x.test.ops[0], ast.Eq) and counter is not None and unparse(x.test.left) == counter \
+                and all(isinstance(y, ast.Break) for y in x.body) and not x.orelse
+            total = unparse(x.test.comparators[0]) if isinstance(x.test, ast.Compare) else "?"
+            scan = _majority_scan(body)
+            if not fine or not (total == f"dt_with_count[{unparse(chosen)}]" or (scan is not None and total == scan[1] and unparse(chosen) == scan[0])):
+                problems.append(f"the selection stops early at `{unparse(x.test)}`")
+        elif x not in app and x not in incs:
+            if any(isinstance(y, (ast.Break, ast.Continue, ast.Return)) for y in ast.walk(x)):
+                problems.append(f"the selection loop exits at `{norm_key(x, 50)}`")
+    return rec, key, chosen, counter, problems
+
+
+def _majority_scan(body):
+    """(name of the selected dt, name of its count) of a running-maximum scan over dt_with_count.items()."""
+    scan = [st for st in body if isinstance(st, ast.For) and unparse(st.iter) == "dt_with_count.items()" and isinstance(st.target, ast.Tuple) and len(st.target.elts) == 2]
+    if len(scan) != 1:
+        return None
+    pdt, pc = [unparse(e) for e in scan[0].target.elts]
+    ifs = [x for x in scan[0].body if isinstance(x, ast.If)]
+    if len(ifs) != 1 or len(scan[0].body) != 1 or ifs[0].orelse or not isinstance(ifs[0].test, ast.Compare) or len(ifs[0].test.ops) != 1:
+        return None
+    t = ifs[0].test
+    l, r, op = unparse(t.left), unparse(t.comparators[0]), t.ops[0]
+    asg = {unparse(x.value): unparse(x.targets[0]) for x in ifs[0].body if isinstance(x, ast.Assign) and len(x.targets) == 1}
+    if set(asg) != {pdt, pc} or len(ifs[0].body) != 2:
+        return None
+    mdt, mc = asg[pdt], asg[pc]
+    if not ((l == pc and r == mc and isinstance(op, (ast.Gt, ast.GtE))) or (l == mc and r == pc and isinstance(op, (ast.Lt, ast.LtE)))):
+        return None
+    i0 = [st for st in body if isinstance(st, ast.Assign) and len(st.targets) == 1 and unparse(st.targets[0]) == mc]
+    if len(i0) != 1 or unparse(i0[0].value) not in ("0", "-1") or i0[0].lineno > scan[0].lineno:
+        return None
+    return mdt, mc
+
+
+def _history(ck: Checker, prog: Program):
+    """A recording processed a second time (alone, with others, in another order) gives the same curve only if
+    processing leaves the caller's recordings untouched (interprocedural effect summaries)."""
+    from .common import engine, group_effects, describe_effect, chain_text
+    eng = engine(prog)
+    for q in ["processing.process"] + ROW_BODIES + ["processing.azimuthal_hvsr_processing", "processing.diffuse_field_hvsr_processing"]:
+        f = prog.func(q)
+        s = eng.summary(f)
+        on_records = [e for e in s.effects if e.origin[0] == "P" and e.origin[1] == 0]
+        groups = group_effects(prog, on_records)
+        if not groups:
+            ck.ok(P + "R5", q, f"the caller's recordings are not modified ({len(s.effects)} effects in the summary)")
+        for (func, text), effs in groups.items():
+            e = effs[0]
+            ck.violation(P + "R5", func, text,
+                         f"processing modifies the caller's recording ({describe_effect(e)}): the curve of a recording would depend on how "
+                         f"often it has been processed before; entry {q}", loc=f.loc(), path=chain_text(e))
+
+
+def _group_axis(ck: Checker, prog: Program, q: str):
+    """The spectra of a time-step group are smoothed against the frequency axis of that group's time step."""
+    b = extract_body(prog, q)
+    f = b.func
+    C = _Counters(b, q)
+    sm = [st for st in b.group_loop.body if isinstance(st, ast.Assign) and isinstance(st.value, ast.Call) and len(st.value.args) == 4
+          and C._before(b.record_loop, st)]
+    if len(sm) != 1:
+        raise AnalysisError(f"{q}: group-level smoothing call not found")
+    R = Resolver(prog, f, keep={b.dt_var})
+    got = canon(R.value(sm[0].value.args[0], sm[0]))
+    want = canon(R.expect(f"np.fft.rfftfreq(settings.fft_settings['n'], {b.dt_var})"))
+    if equal(got, want):
+        ck.ok(P + "R3", q, f"frequency axis of the group = rfftfreq(n, {b.dt_var})", detail=str(got))
+    else:
+        ck.violation(P + "R3", q, "frequency axis of the group",
+                     f"the group's spectra are smoothed against {got}; expected {want} (the axis of the group's own time step)", loc=f.loc(sm[0]))
 
 
 def _r4_guard(ck: Checker, prog: Program):
